@@ -417,7 +417,7 @@ theorem dedupSubjects_map (fs : List Filter)
   congr 1
   apply List.filter_congr
   intro m hm
-  simp only [Function.comp_def, List.any_map, mapId_id]
+  simp only [Function.comp_def, List.any_map, mapId_id, mapId_isParent]
   congr 1
   rw [Bool.eq_iff_iff]
   simp only [List.any_eq_true]
@@ -441,10 +441,10 @@ theorem droppedSubjects_map (fs : List Filter)
   congr 1
   apply List.filter_congr
   intro m hm
-  simp only [Function.comp_def, List.any_map, mapId_id]
+  simp only [Function.comp_def, List.any_map, mapId_id, mapId_isParent]
   apply any_congr_mem
   intro o ho
-  exact hsub o ho m hm
+  rw [hsub o ho m hm]
 
 omit hφ in
 theorem convertAliases_map (c : RuleConfig) (hsub : cfgSubOK φ c) :
